@@ -89,7 +89,8 @@ func (x *XmlNode) Next(r node.ListRequest) (node.Node, []val.Value, error) {
 				if !found {
 					break
 				}
-				if k.String() != v {
+				// a key given only in part (l=a for the key "a b") has nil components, it names no entry
+				if k == nil || k.String() != v {
 					break
 				}
 				isLastKey := i == (len(r.Key) - 1)
